@@ -325,6 +325,17 @@ def main(ctx):
         opcount[e["op"]] = opcount.get(e["op"], 0) + 1
         case, infos, evs = traces[e["tid"]]
         for clause in verdicts[e["id"]]:
+            if clause.startswith("~"):      # a note of the spec (environment assumption void), not a failing clause
+                ctx.skip(clause[1:])
+                continue
+            if clause == "raises" and e["op"] == "reject" and "x0 lay outside the specified bounds" in str(e.get("msg", "")) + str(e.get("exc_msg", "")) + str(info_for(e, evs, infos).get("exc", "")):
+                # scipy's differential_evolution maps x0 to [0, 1] and refuses a start that lies exactly on a
+                # bound (rounding): the previous run returned the bound itself.  Not a return, nothing to judge.
+                prev = [x for x in evs if x["seq"] < e["seq"] and x["op"] == "start"]
+                if prev and all((not r["has_blo"] or R.fnum_dy(r["blo"]) <= R.fnum_dy(r["v"])) and
+                                (not r["has_bhi"] or R.fnum_dy(r["v"]) <= R.fnum_dy(r["bhi"])) for r in prev[-1]["vars"]):
+                    ctx.skip("scipy refused a start point lying exactly on a bound")
+                    continue
             info = info_for(e, evs, infos)
             cls = R.classify(case, info)
             cls["step"] = e["op"]
@@ -386,6 +397,9 @@ def replay(ctx, rep):
     for e in events:
         c2, infos, evs = traces[e["tid"]]
         for clause in verdicts[e["id"]]:
+            if clause.startswith("~"):
+                ctx.skip(clause[1:])
+                continue
             info = info_for(e, evs, infos)
             cls = R.classify(c2, info)
             cls["step"] = e["op"]
